@@ -3,7 +3,9 @@ package main
 import (
 	"encoding/json"
 	"fmt"
+	"regexp"
 	"sort"
+	"strconv"
 	"strings"
 )
 
@@ -442,7 +444,7 @@ func cueBase(t *amType, indent int) string {
 			if !f.Required {
 				opt = "?"
 			}
-			fmt.Fprintf(&sb, "%s%s%s: %s\n", pad, f.Name, opt, cueType(f.T, indent+1, false))
+			fmt.Fprintf(&sb, "%s%s%s: %s\n", pad, cueLabel(f.Name), opt, cueType(f.T, indent+1, false))
 		}
 		sb.WriteString(strings.Repeat("\t", indent) + "}")
 		return sb.String()
@@ -466,4 +468,14 @@ func cueWrap(t *amType, indent int) string {
 		return "(" + s + ")"
 	}
 	return s
+}
+
+var cuePlainLabelRe = regexp.MustCompile(`^[A-Za-z][A-Za-z0-9_]*$`)
+
+// cueLabel quotes field names that are not plain identifiers (a leading `_` would make the field hidden, `#` a definition).
+func cueLabel(name string) string {
+	if cuePlainLabelRe.MatchString(name) {
+		return name
+	}
+	return strconv.Quote(name)
 }
